@@ -280,13 +280,14 @@ def build_harness(profile="debug"):
 
 
 def build_lace_cli(profile="debug"):
-    """The lace binary itself, from /repo's working tree (no hooks needed for CLI checks, but the
-    same flags are used so that one build serves both)."""
-    with Lock("cargo"):
+    """The lace binary itself, from /repo's working tree, built WITHOUT the lace_verif guard: the CLI-level
+    checks (C06, C07, C08, the transport part of C14) exercise the configuration users run, while the
+    in-process harness exercises the hooked one; both are compared with the same model."""
+    with Lock("cargo-cli"):
         cmd = "cargo build --offline --bin lace" + (" --release" if profile == "release" else "")
-        rc, out = sh(cmd, cwd=REPO, timeout=1800,
-                     env={"RUSTFLAGS": "--cfg lace_verif", "CARGO_TARGET_DIR": os.path.join(CACHE, "target-cli")})
-        exe = os.path.join(CACHE, "target-cli", profile, "lace")
+        env = {"CARGO_TARGET_DIR": os.path.join(CACHE, "target-plain")}
+        rc, out = sh("env -u RUSTFLAGS " + cmd, cwd=REPO, timeout=1800, env=env)
+        exe = os.path.join(CACHE, "target-plain", profile, "lace")
         if rc != 0 or not os.path.exists(exe):
             return None, out
         return exe, out
